@@ -511,7 +511,7 @@ class Unit:
 
         _length = length if length else context.resolve(self.length_var)
 
-        if _length not in ("short", "long", "narrow"):
+        if not isinstance(_length, str) or _length not in ("short", "long", "narrow"):
             _length = self.default_length
 
         assert isinstance(_length, str)
